@@ -31,6 +31,8 @@ mod tests;
 #[cfg(all(test, loom, penguin_rs_verif))]
 mod verif_loom;
 pub mod timing;
+#[cfg(all(penguin_rs_verif, feature = "std"))]
+pub mod verif_hooks;
 pub mod ws;
 
 use crate::frame::{BindPayload, BindType, Frame};
@@ -158,7 +160,10 @@ impl Multiplexor<SmallRng> {
     #[cfg(all(feature = "tokio-rt", feature = "std"))]
     pub fn new<S: WebSocket>(ws: S) -> Self {
         use rand::SeedableRng;
+        #[cfg(not(penguin_rs_verif))]
         let rng = SmallRng::from_rng(&mut rand::rng());
+        #[cfg(penguin_rs_verif)]
+        let rng = SmallRng::seed_from_u64(crate::verif_hooks::next_seed());
         let (mux, taskdata) =
             Self::new_detailed::<_, std::time::Instant>(ws, config::Options::default(), rng);
         taskdata.spawn(None);
@@ -186,7 +191,10 @@ impl Multiplexor<SmallRng> {
         task_joinset: Option<&mut tokio::task::JoinSet<Result<()>>>,
     ) -> Self {
         use rand::SeedableRng;
+        #[cfg(not(penguin_rs_verif))]
         let rng = SmallRng::from_rng(&mut rand::rng());
+        #[cfg(penguin_rs_verif)]
+        let rng = SmallRng::seed_from_u64(crate::verif_hooks::next_seed());
         let (mux, taskdata) = Self::new_detailed::<_, std::time::Instant>(ws, options, rng);
         taskdata.spawn(task_joinset);
         mux
